@@ -13,6 +13,7 @@ double         vf_nondet_double(void);
 void           vf_assume(bool c);
 void           vf_assert_(bool c, const char* id);
 void           vf_witness(void);
+void           vf_split(bool c);       // case-split hint for the solver (no effect on semantics)
 void           vf_out_int(long v);     // observable output (translator validation only)
 void           vf_out_double(double v);
 }
